@@ -5,6 +5,18 @@ TB = ("Trusted: Lean 4.33.0 kernel (axioms at most propext, Classical.choice, Qu
       "(Go harness + line protocol + Lean driver), whose coverage is measured in the evidence file. ")
 
 TEXT = {
+    "C01": {
+        "text": "Lean model of VerifyRefFull / VerifyRef / VerifyRefFromEntry (LoadState chain, range walk with policy/attestation "
+                "switching, verifyEntry with authorizations, code-review approvals, file rules, global rules, recovery loop) over an "
+                "abstract history; proved so far: the reported tip is the target of the latest entry, a reference without entries "
+                "never verifies (all histories, all variants). The soundness statement C01_sound_statement is kept at full strength "
+                "and is evaluated by the driver, as a decidable predicate written independently of the algorithm, on the verdict the "
+                "REAL verifier returns for every generated history; the model (with the open defects F1-F4 as explicit Variant flags) "
+                "must reproduce every verdict and tip of the real code.",
+        "note": TB + "The unbounded soundness theorem for the whole loop is not yet proved (statement in Props/C01.lean); known defects "
+                "F1, F2, F3 (and F4 via C02) are open findings reproduced on every run from corpus/C01.",
+        "technique": "Lean 4 model + partial theorems; differential correspondence with spec evaluated on the implementation",
+    },
     "C05": {
         "text": "C05_sound / C05_invalid / C05_accept_satisfies are proved in Lean for every rule shape, every principal and key "
                 "iteration order, every Git signature and every envelope (no bound on principals, keys or signatures): a successful "
